@@ -147,6 +147,7 @@ func VerifyFunc(w *World, cs *ContractSet, ct *Contract) *FuncResult {
 	entry := st.clone()
 	e.entry = entry
 	e.topArgs = clauseArgs(st)
+	e.topCt = ct
 	e.probe(st, "vacuity.pre", "entry")
 	mods, star := e.collectMods(st, ct, clauseArgs(st))
 	e.topMods, e.topStar = mods, star || ct.Kind == "lemma"
